@@ -1,8 +1,10 @@
 package ast
 
 import (
+	"cmp"
 	"fmt"
 	"os"
+	"slices"
 	"sync"
 
 	"github.com/dominikbraun/graph"
@@ -89,6 +91,18 @@ func (tfg *TaskfileGraph) Merge() (*Taskfile, error) {
 				if !ok {
 					return fmt.Errorf("task: Failed to get merge options")
 				}
+
+				// A parent may include the same Taskfile several times. The
+				// reader recorded those includes in the order in which its
+				// goroutines finished: merge them in the order of the parent's
+				// include statements, so that every load gives the same result
+				order := make(map[string]int, vertex.Taskfile.Includes.Len())
+				for namespace := range vertex.Taskfile.Includes.Keys() {
+					order[namespace] = len(order)
+				}
+				slices.SortStableFunc(includes, func(a, b *Include) int {
+					return cmp.Compare(order[a.Namespace], order[b.Namespace])
+				})
 
 				// Merge the included Taskfiles into the parent Taskfile
 				for _, include := range includes {
